@@ -22,7 +22,8 @@ Module C09.
 Inductive meminfo :=
 | MNone
 | MVar (glob : bool) (name scope addr : Z) (mut cre : bool)   (* ExecutedMemoryInstruction *)
-| MAttr (name src addr : Z) (mut : bool).                     (* ExecutedAttributeInstruction *)
+| MAttr (name src addr : Z) (mut elem : bool).                (* ExecutedAttributeInstruction; elem = subscript
+                                                                  access, traced with the placeholder name "None" *)
 
 Record einstr := mkI {
   uid : Z;            (* interned (name, code_object_id, node_id, instr_original_index) *)
@@ -186,9 +187,10 @@ Definition check_explicit (e : einstr) (s : st) : bool * list Z * st :=
       let av := if c4 then remZ name (attr_vars s) else attr_vars s in
       (c1 || c2 || c3 || c4, created,
        mkS (in_slice s) (ctrl_deps s) lu gu ad au av (frames s) (new_attr s) (cod s) (sim s))
-  | MAttr name src addr mut =>
+  | MAttr name src addr mut elem =>
       let c1 := memP (src, name) (attr_uses s) in
-      let au := if c1 then remP (src, name) (attr_uses s) else attr_uses s in
+      (* a subscript store defines one (unrecorded) element: the element use stays pending *)
+      let au := if c1 && negb elem then remP (src, name) (attr_uses s) else attr_uses s in
       let partial := memZ src (addr_uses s) in
       (c1 || partial, [],
        mkS (in_slice s) (ctrl_deps s) (luses s) (guses s) (addr_uses s) au (attr_vars s) (frames s)
@@ -204,7 +206,7 @@ Definition add_uses (e : einstr) (s : st) : st :=
       let lu := if g then luses s else addP (name, sc) (luses s) in
       let gu := if g then addP (name, sc) (guses s) else guses s in
       mkS (in_slice s) (ctrl_deps s) lu gu ad (attr_uses s) (attr_vars s) (frames s) (new_attr s) (cod s) (sim s)
-  | MAttr name src addr mut =>
+  | MAttr name src addr mut _ =>
       let ad1 := if negb (addr =? 0) && mut then addZ addr (addr_uses s) else addr_uses s in
       let au := if negb (addr =? 0) then addP (src, name) (attr_uses s) else attr_uses s in
       let ad2 := if addr =? 0 then addZ src ad1 else ad1 in
@@ -408,7 +410,7 @@ Definition unpack_mem (m : pmem) : meminfo :=
   match m with
   | PN => MNone
   | PV n s a fl => MVar (bit fl 0) n s a (bit fl 1) (bit fl 2)
-  | PA n s a fl => MAttr n s a (bit fl 0)
+  | PA n s a fl => MAttr n s a (bit fl 0) (bit fl 1)
   end.
 Definition I (u c n f l po pu fl : Z) (m : pmem) : einstr :=
   mkI u c n f l (bit fl 0) (Z.to_nat po) (Z.to_nat pu)
